@@ -616,7 +616,9 @@ def solve_cases(draw, tier):
     free = draw(st.lists(E.points(n, 'dyadic' if mode == 'dyadic' else 'mixed'), min_size=3, max_size=3))
     coef = draw(st.lists(st.lists(st.sampled_from([0.0, 1.0, -1.0, 2.0, 0.5, -3.0]), min_size=n, max_size=n), min_size=2, max_size=2))
     return dict(nvars=n, A=A, sol=sol, redundant=redundant, moved=moved, scheme=scheme, style=style,
-                target=target, free=free, nullmix=coef, keep_zero=draw(st.booleans()))
+                target=target, free=free, nullmix=coef, keep_zero=draw(st.booleans()),
+                # which equations are written with '==' (solve accepts both spellings, also mixed)
+                eqeq=draw(st.lists(st.sampled_from([False, False, False, True]), min_size=ne + 1, max_size=ne + 1)))
 
 
 def solve_system(case):
@@ -680,6 +682,13 @@ def run_solve(case, ctx):
     names, variables = E.names_of(case['scheme'], n)
     system, rows = solve_system(case)
     text = E.render(system, names, case['style'])
+    if any(case.get('eqeq') or []):
+        tl = text.split('\n')
+        for li, flag in enumerate(case['eqeq'][:len(tl)]):
+            if flag and tl[li].count('=') == 1:
+                tl[li] = tl[li].replace('=', '==')
+        text = '\n'.join(tl)
+        ctx.label('some-lines-with-==')
     exact_sys = all(exact_relation(r) for r in system) and all(E.is_short_dyadic(r[3][2], 64, 4096) for r in system)
     ne = len(case['A'])
     ctx.label('eqs:%d' % ne, 'free:%d' % (n - ne) if n - ne < 3 else 'free:3+', E.scheme_label(case['scheme']),
